@@ -73,7 +73,7 @@ TBigRoute ==
 \* the returned elevation lies above the input / above B (FlowContract!C02Level: Spill <= out <= Spill + n)
 ZComb(d, f, i) == LET r == i \div d.nc   c == i % d.nc IN
                   IF r = 0 \/ r = d.nr - 1 \/ c = 0 \/ c = d.nc - 1 THEN f.B
-                  ELSE IF r = 1 \/ c % 2 = 1 THEN f.L ELSE f.W
+                  ELSE IF r = 1 \/ (c % 2 = 1 /\ c >= f.c0) THEN f.L ELSE f.W
 TBigFill ==
   /\ Is("BigFill") /\ bd # None
   /\ LET d == bd
